@@ -18,9 +18,9 @@ if [ "$mode" = fail ] || [ "$mode" = all ]; then
   seeds="$@"; [ -z "$seeds" ] && seeds=$(grep -v '^#' tools/selftest_expect.txt | awk '{print $1}')
   for s in $seeds; do
     prop=$(grep "^$s " tools/selftest_expect.txt | awk '{print $2}'); [ -z "$prop" ] && prop=${s%%-*}
-    git -C /repo apply seeded/$s/patch.diff || { echo "must-fail $s: patch does not apply"; rc=1; continue; }
+    git -C /repo apply /verif/seeded/$s/patch.diff || { echo "must-fail $s: patch does not apply"; rc=1; continue; }
     ./check $prop quick > /tmp/selftest_$s.log 2>&1; e=$?
-    git -C /repo apply -R seeded/$s/patch.diff
+    git -C /repo apply -R /verif/seeded/$s/patch.diff
     echo "must-fail $s ($prop) exit=$e $(grep -m1 '^VIOLATION' /tmp/selftest_$s.log | sed 's/.*obligation=//')"
     [ $e -ne 1 ] && rc=1
   done
